@@ -109,6 +109,19 @@ def p_div3(k):
     ((q * 9) / 3 / 3).val()        # inv(3)^2: an unreduced coefficient of about 508 bits
 
 
+def p_negbig(k):
+    x = k.S("x"); y = k.S("y")
+    q = (x * 9) / 3 / 3 * -5           # coefficient -5*inv(3)^2: negative and far below -p
+    (y - (x * 3) / 3 * 4 + q).val()    # and -4*inv(3)... between -4p and 0
+    (q * y).val()
+
+
+def p_cancel(k):
+    x = k.S("x"); y = k.S("y")
+    ((x + y - x) * y).val()            # a term whose coefficient cancelled to 0 stays in the combination
+    ((x * 7 - x * 7 + y) * (y - y + 1)).val()
+
+
 def p_cmp(k):
     x = k.S("x"); y = k.S("y")
     (x < y).val()
@@ -125,7 +138,7 @@ def p_empty(k):
     pass
 
 
-PROGRAMS = dict(mul=(p_mul, ("x", "y", "z")), lin=(p_lin, ("x",)), div3=(p_div3, ("x",)), cmp=(p_cmp, ("x", "y")),
+PROGRAMS = dict(negbig=(p_negbig, ("x", "y")), cancel=(p_cancel, ("x", "y")), mul=(p_mul, ("x", "y", "z")), lin=(p_lin, ("x",)), div3=(p_div3, ("x",)), cmp=(p_cmp, ("x", "y")),
                 pubs=(p_pubs, ("x", "y", "z")), empty=(p_empty, ()))
 
 
